@@ -13,7 +13,7 @@ RULE = ("2-3 driver objects of any mix of RF24, FakeBLE, RF24Network, RF24Networ
         "after the constructor is the first established state), and PWR_UP=0 and CE low after "
         "every __exit__. Non-trivial: a re-entry was compared after another object had changed "
         "at least one register; distinct = distinct (class mix, block order, calls).")
-RULE += (" Later rounds added: a focused pipe/address alphabet, nested with-blocks, print_details()/print_pipes().")
+RULE += (" Later rounds added: a focused pipe/address alphabet, nested with-blocks, print_details()/print_pipes(), carrier-wave tests with a reader in between (plus chips), network objects changing their address bytes in place (clause address_bytes_private).")
 REQUIRED = {"reentry_compare": 2000, "exit_state": 2000, "foreign_change_seen": 500}
 BUDGET = {"quick": 480, "thorough": 900}
 
@@ -53,6 +53,10 @@ FOCUS = [["open_rx_pipe", 0, "hex:3141424344"], ["open_rx_pipe", 0, "hex:c1c2c3"
          ["data_rate", 2], ["data_rate", 250], ["pa_level", -12], ["channel", 7]]
 
 
+CW_READERS = [["getattr", "pa_level"], ["getattr", "data_rate"], ["getattr", "is_lna_enabled"], ["getattr", "channel"],
+              ["print_details", False], ["getattr", "crc"], ["getattr", "power"]]
+
+
 def ops_of(cls, focus=False):
     if cls == "RF24":
         return FOCUS if focus else RF24_OPS
@@ -63,6 +67,7 @@ def ops_of(cls, focus=False):
 
 def gen_cases(ctx):
     rng = ctx.sub_rng("c09")
+    rng2 = ctx.sub_rng("c09b")  # later additions draw from their own stream
     n = 5000 if ctx.tier == "quick" else 200000
     for i in range(n):
         k = rng.choice([2, 2, 3])
@@ -71,6 +76,8 @@ def gen_cases(ctx):
             classes = [CLASSES[i % 6], CLASSES[(i // 6) % 6]]
             k = 2
         blocks = []
+        carrier = False
+        plus = "FakeBLE" in classes or rng.random() < 0.7
         for _ in range(rng.randrange(3, 9)):
             who = rng.randrange(k)
             pool = ops_of(classes[who], focus=(i % 2 == 1))
@@ -81,11 +88,26 @@ def gen_cases(ctx):
                 who2 = rng.choice([x for x in range(k) if x != who])
                 pool2 = ops_of(classes[who2], focus=(i % 2 == 1))
                 blk.append([who2, [pool2[rng.randrange(len(pool2))] for _ in range(rng.randrange(0, 5))]])
+            if classes[who] == "RF24" and rng2.random() < 0.12:
+                # a carrier-wave test inside the block, with a reader in between (readers refresh the
+                # driver's cached view from the registers): started, looked at, stopped
+                at = rng2.randrange(len(blk[1]) + 1)
+                blk[1][at:at] = [["start_carrier_wave"], rng2.choice(CW_READERS), ["stop_carrier_wave"]]
+                carrier = True
+            elif classes[who] not in ("RF24", "FakeBLE") and rng2.random() < 0.2:
+                # a network object changes one of its address bytes in place (the attributes are
+                # mutable bytearrays) - its own business only
+                blk[1].insert(rng2.randrange(len(blk[1]) + 1),
+                              rng2.choice([["suffix_inplace", rng2.randrange(6), rng2.randrange(1, 255)],
+                                           ["prefix_inplace", rng2.randrange(1, 255)]]))
             blocks.append(blk)
+        if carrier:
+            # (non-plus chips: stop_carrier_wave() leaves CONFIG's IRQ mask to the documented `with`
+            # restore - C03's assumption list - so the end-of-block snapshot is not the reference there)
+            plus = True
         # a non-plus chip whose FEATURE register is 0 when a driver object is constructed
         # cannot be told from a plus variant (outside A19) -> FakeBLE mixes run on plus chips
-        yield {"classes": classes, "blocks": blocks, "seed": rng.getrandbits(30),
-               "plus": "FakeBLE" in classes or rng.random() < 0.7}
+        yield {"classes": classes, "blocks": blocks, "seed": rng.getrandbits(30), "plus": plus}
 
 
 def make(rig, radio, cls):
@@ -126,6 +148,12 @@ def apply(obj, cls, op, rig):
             setattr(obj, name, args[0])
         elif name in ("flush_rx", "flush_tx"):
             getattr(obj, name)()
+        elif name == "getattr":
+            getattr(obj, args[0])
+        elif name == "suffix_inplace":
+            obj.address_suffix[args[0]] = args[1]
+        elif name == "prefix_inplace":
+            obj.address_prefix[0] = args[0]
         else:
             cfg_ref.apply_to_driver(obj, op)
     except (NotImplementedError, ValueError, IndexError, AttributeError, TypeError):
@@ -152,6 +180,8 @@ def run_case(ctx, case):
             objs.append(o)
             est.append(mask(radio.snapshot()["cfg"]))
         last_owner = len(objs) - 1
+        addr_model = {w: [bytearray(o.address_prefix), bytearray(o.address_suffix)]
+                      for w, o in enumerate(objs) if hasattr(o, "address_suffix")}
         crc_dc = [False] * len(objs)
         compared = 0
         for bi, blk in enumerate(case["blocks"]):
@@ -206,6 +236,25 @@ def run_case(ctx, case):
                 o.__exit__(ValueError, ValueError("raised inside the block"), None)  # left by an exception
             else:
                 o.__exit__(None, None, None)
+            # address bytes are per object: what this block changed in place shows in no other object
+            for op in ops + (nested[1] if nested else []):
+                if op[0] in ("suffix_inplace", "prefix_inplace"):
+                    w = who if op in ops else nested[0]
+                    if w not in addr_model:
+                        continue
+                    if op[0] == "suffix_inplace":
+                        addr_model[w][1][op[1]] = op[2]
+                    else:
+                        addr_model[w][0][0] = op[1]
+            for w, (pm, sm) in addr_model.items():
+                ctx.clause("address_bytes_private")
+                if bytes(objs[w].address_prefix) != bytes(pm) or bytes(objs[w].address_suffix) != bytes(sm):
+                    ctx.violation("leak/address-bytes", "after block %d (object %d, %s) object %d (%s) holds prefix %s "
+                                  "suffix %s; it set %s / %s itself" % (bi, who, cls, w, case["classes"][w],
+                                                                         bytes(objs[w].address_prefix).hex(),
+                                                                         bytes(objs[w].address_suffix).hex(),
+                                                                         bytes(pm).hex(), bytes(sm).hex()), case)
+                    return
             ctx.clause("exit_state")
             if radio.r[0] & 2 or radio.ce:
                 ctx.violation("exit/%s" % cls, "after __exit__: PWR_UP=%d CE=%s"
